@@ -1,7 +1,8 @@
 import CCV.Drv.Util
 import CCV.Model.Compare
+import CCV.Model.CompareArr
 namespace CCV.Drv.C16
-open CCV CCV.Drv CCV.Compare
+open CCV CCV.Drv CCV.Compare CCV.CompareArr
 
 def parseOp? : String → Option Op
   | "eq" => some .eq
@@ -32,10 +33,29 @@ def extraMults : String → Option Nat
   | "max" => some 2
   | _ => none
 
+/-- a bit array on the wire: one character `0`/`1` per stored bit, row-major -/
+def parseBits? (s : String) : Option (List Nat) :=
+  s.toList.mapM fun c => if c == '0' then some 0 else if c == '1' then some 1 else none
+
+def showBits (l : List Nat) : String := String.ofList (l.map fun x => if x == 0 then '0' else '1')
+
+def showArr : Except String (List Nat × List Nat) → String
+  | .ok (s, xs) => showList s ++ " " ++ showBits xs
+  | .error _ => "ERR"
+
+/-- the array-level model of one of the 8 operations -/
+def arrOp (op : String) (signed : Bool) (sa xs sb ys : List Nat) : Option (Except String (List Nat × List Nat)) :=
+  match op with
+  | "min" => some (minArr signed sa xs sb ys)
+  | "max" => some (maxArr signed sa xs sb ys)
+  | _ => (parseOp? op).map fun o => cmpArr o signed sa xs sb ys
+
 /-- requests (operands are naturals `< 2^w`, the bit strings are their `w` low bits, LSB first):
   `cmp <eq|ne|lt|gt|le|ge> <signed 0/1> <w> <a> <b>` → result bit of the custom operation, `ERR` if rejected
   `min <signed> <w> <a> <b>` / `max …`               → the natural encoded by the result bit string
-  `mults <op> <w>`                                   → number of `Multiply` nodes of the instantiated graph -/
+  `mults <op> <w>`                                   → number of `Multiply` nodes of the instantiated graph
+  `arr <op|min|max> <signed> <shape a> <bits a> <shape b> <bits b>` → whole arrays (shapes include the
+       bit axis, bits row-major `0`/`1` characters): `<result shape> <result bits>`, `ERR` if rejected -/
 def handle : List String → String
   | ["cmp", op, s, w, a, b] =>
     match parseOp? op, parseNat? s, parseNat? w, parseNat? a, parseNat? b with
@@ -49,6 +69,13 @@ def handle : List String → String
     match parseNat? s, parseNat? w, parseNat? a, parseNat? b with
     | some s, some w, some a, some b => showOptBits (maxBits (s == 1) (toBits w a) (toBits w b))
     | _, _, _, _ => "BAD-OP"
+  | ["arr", op, s, sa, xs, sb, ys] =>
+    match parseNat? s, parseNatList? sa, parseBits? xs, parseNatList? sb, parseBits? ys with
+    | some s, some sa, some xs, some sb, some ys =>
+      match arrOp op (s == 1) sa xs sb ys with
+      | some r => showArr r
+      | none => "BAD-OP"
+    | _, _, _, _, _ => "BAD-OP"
   | ["mults", op, w] =>
     match extraMults op, parseNat? w with
     | some e, some w => toString (multNodes e w)
